@@ -148,17 +148,22 @@ DEV_NESTING = "NestingOutsideCallsUnbounded"
 class LadderTLC(threading.Thread):
     """Runs the ladder generator (and the demo of the deviation) beside the rest of the check."""
 
-    def __init__(self, tier):
+    def __init__(self, cfg, check):
         super().__init__(daemon=True)
-        self.tier = tier
-        self.res = self.demo = self.err = None
+        self.cfg, self.check = cfg, check
+        self.res = self.err = None
 
     def run(self):
         try:
-            self.res = tlc("Gen_ExpanderDepth", f"Gen_ExpanderDepth_{self.tier}.cfg", workers=1, timeout=3000)
-            self.demo = tlc("Gen_ExpanderDepth", "Demo_ExpanderDepth_unbounded.cfg", workers=1, timeout=3000, check=False)
+            self.res = tlc("Gen_ExpanderDepth", self.cfg, workers=1, timeout=3000, check=self.check)
         except BaseException as e:  # noqa: BLE001  (re-raised by the main thread)
             self.err = e
+
+    def result(self):
+        self.join()
+        if self.err is not None:
+            raise self.err
+        return self.res
 
 
 def ladder_text(seg):
@@ -292,8 +297,10 @@ def run(tier: str) -> int:
               "(b) see c05b. distinct_nontrivial = distinct (cut/no-cut, body of A, page) + distinct parser-function cases")
     o.assumptions = ["wall-clock bound 20 s per small generated page", "network-dependent parser functions run with the network helper stubbed"]
     thorough = tier == "thorough"
-    ladders = LadderTLC(tier)
+    ladders = LadderTLC(f"Gen_ExpanderDepth_{tier}.cfg", True)
     ladders.start()
+    ladder_demo = LadderTLC("Demo_ExpanderDepth_unbounded.cfg", False)
+    ladder_demo.start()
     uni = "C05" if thorough else "C05Q"
     r = tlc("Gen_Expander", f"Gen_Expander_{uni}.cfg", workers=1, timeout=3000)
     o.add_tlc(f"Gen_Expander[{uni}] laws+cases", r)
@@ -342,14 +349,12 @@ def run(tier: str) -> int:
         c05b.run_b(o, tier)
     # L: nesting ladders
     t_l = time.time()
-    ladders.join()
-    if ladders.err is not None:
-        raise ladders.err
-    r = ladders.res
+    r = ladders.result()
+    demo = ladder_demo.result()
     o.add_tlc(f"Gen_ExpanderDepth[{tier}] laws+ladders", r)
-    o.add_tlc("Demo_ExpanderDepth_unbounded", ladders.demo)
-    o.extra["demo_uncounted_nesting_unbounded"] = bool(ladders.demo.invariant_violated)
-    if not ladders.demo.invariant_violated:
+    o.add_tlc("Demo_ExpanderDepth_unbounded", demo)
+    o.extra["demo_uncounted_nesting_unbounded"] = bool(demo.invariant_violated)
+    if not demo.invariant_violated:
         raise common.TLCError("Demo_ExpanderDepth_unbounded no longer shows the unbounded recursion of the as-is design (vacuity guard)")
     lc = r.cases
     _G["ladders"] = lc
